@@ -116,6 +116,60 @@ var astSign = []string{
 	"saltpack.checkSigncryptReceivers",
 }
 
+// gen/GoAstDearmor.v: the read side of the armor layer and of the base-X stream decoder
+var astDearmor = []string{
+	"saltpack.framedDecoderStream_loadHeader",
+	"saltpack.framedDecoderStream_Read",
+	"saltpack.framedDecoderStream_consumeUntilEOF",
+	"saltpack.framedDecoderStream_isValidByteSequence",
+	"saltpack.framedDecoderStream_toASCII",
+	"saltpack.framedDecoderStream_GetHeader",
+	"saltpack.framedDecoderStream_GetFooter",
+	"saltpack.framedDecoderStream_GetBrand",
+	"basex.decoder_Read",
+	"basex.filteringReader_Read",
+	"basex.Encoding_decode",
+	"basex.Encoding_Decode",
+	"basex.Encoding_Encode",
+	"basex.Encoding_getByteType",
+	"basex.Encoding_IsValidByte",
+	"basex.Encoding_hasSkipBytes",
+}
+
+// gen/GoAstFrame.v: armor frames (frame.go, armor62.go) and the armored classifier
+var astFrame = []string{
+	"saltpack.pop",
+	"saltpack.shift",
+	"saltpack.makeFrame",
+	"saltpack.MakeArmorHeader",
+	"saltpack.MakeArmorFooter",
+	"saltpack.getStringForType",
+	"saltpack.parseFrame",
+	"saltpack.CheckArmor62Frame",
+	"saltpack.CheckArmor62",
+	"saltpack.IsSaltpackArmoredPrefix",
+}
+
+// gen/GoAstOpen.v: the entry-point glue of the receivers (header reading, packet reading, detached verification)
+var astOpen = []string{
+	"saltpack.decryptStream_readHeader",
+	"saltpack.readEncryptionBlock",
+	"saltpack.signcryptOpenStream_readHeader",
+	"saltpack.readSignatureBlock",
+	"saltpack.assertEndOfStream",
+	"saltpack.NewDecryptStream",
+	"saltpack.Open",
+	"saltpack.NewSigncryptOpenStream",
+	"saltpack.SigncryptOpen",
+	"saltpack.newVerifyStream",
+	"saltpack.NewVerifyStream",
+	"saltpack.Verify",
+	"saltpack.VerifyDetachedReader",
+	"saltpack.VerifyDetached",
+	"saltpack.computeMACKeySender",
+	"saltpack.computeMACKeysSender",
+}
+
 type astGen struct {
 	info    *types.Info
 	pkg     *types.Package
@@ -393,9 +447,69 @@ func (g *astGen) expr(e ast.Expr) string {
 				fields = append(fields, fmt.Sprintf("(%s, %s)", coqStr(fmt.Sprint(i)), g.expr(el)))
 			}
 		}
+		// a keyed struct literal leaves the omitted fields at their zero values: they are listed after the
+		// given ones, in the order of the struct declaration (blank fields such as the codec's `_struct` skipped)
+		if st != nil && len(x.Elts) > 0 {
+			if _, keyed := x.Elts[0].(*ast.KeyValueExpr); keyed {
+				given := map[string]bool{}
+				for _, el := range x.Elts {
+					if kv, ok := el.(*ast.KeyValueExpr); ok {
+						given[g.callName(kv.Key)] = true
+					}
+				}
+				for i := 0; i < st.NumFields(); i++ {
+					f := st.Field(i)
+					if f.Name() == "_" || f.Name() == "_struct" || given[f.Name()] {
+						continue
+					}
+					if z := g.zeroExpr(f.Type(), 0); z != "" {
+						fields = append(fields, fmt.Sprintf("(%s, %s)", coqStr(f.Name()), z))
+					}
+				}
+			}
+		}
 		return fmt.Sprintf("(ELit %s [%s])", coqStr(tn), strings.Join(fields, "; "))
 	}
 	return fmt.Sprintf("(EUnsup %s)", coqStr(fmt.Sprintf("%T", e)))
+}
+
+// zeroExpr renders the zero value of a type
+func (g *astGen) zeroExpr(t types.Type, depth int) string {
+	switch u := t.Underlying().(type) {
+	case *types.Basic:
+		switch {
+		case u.Info()&types.IsBoolean != 0:
+			return "(EBool false)"
+		case u.Info()&types.IsString != 0:
+			return "(EStr \"\")"
+		case u.Info()&types.IsNumeric != 0:
+			return "(EInt (0))"
+		}
+	case *types.Array:
+		if b, ok := u.Elem().Underlying().(*types.Basic); ok && b.Kind() == types.Byte {
+			return fmt.Sprintf("(ECall \"make\" [(EInt (%d))])", u.Len())
+		}
+	case *types.Struct:
+		// (a struct of another package, e.g. bytes.Buffer, is opaque: its field stays absent and is only
+		// touched through externs)
+		if nt, ok := t.(*types.Named); ok && nt.Obj().Pkg() != g.pkg {
+			return ""
+		}
+		if depth < 3 {
+			var fs []string
+			for i := 0; i < u.NumFields(); i++ {
+				f := u.Field(i)
+				if f.Name() == "_" || f.Name() == "_struct" {
+					continue
+				}
+				if z := g.zeroExpr(f.Type(), depth+1); z != "" {
+					fs = append(fs, fmt.Sprintf("(%s, %s)", coqStr(f.Name()), z))
+				}
+			}
+			return fmt.Sprintf("(ELit %s [%s])", coqStr(g.typeName(t)), strings.Join(fs, "; "))
+		}
+	}
+	return "ENil" // slices, maps, pointers, interfaces, functions, channels
 }
 
 func (g *astGen) block(b *ast.BlockStmt) string {
@@ -460,8 +574,22 @@ func (g *astGen) stmt(s ast.Stmt) string {
 	switch x := s.(type) {
 	case *ast.ReturnStmt:
 		var es []string
-		for _, e := range x.Results {
+		var pre []string
+		for i, e := range x.Results {
+			// return &x.f: objects are values in the embedding; the address of a field is the address of a
+			// fresh variable holding the field's value at this point:  a'i := x.f; return &a'i
+			if u, ok := e.(*ast.UnaryExpr); ok && u.Op == token.AND {
+				if sel, ok := u.X.(*ast.SelectorExpr); ok {
+					tmp := fmt.Sprintf("a'%d", i)
+					pre = append(pre, fmt.Sprintf("SAssign [%s] [%s]", coqStr(tmp), g.expr(sel)))
+					es = append(es, fmt.Sprintf("(EAddr %s)", coqStr(tmp)))
+					continue
+				}
+			}
 			es = append(es, g.expr(e))
+		}
+		if len(pre) > 0 {
+			return strings.Join(pre, ";\n      ") + fmt.Sprintf(";\n      SReturn [%s]", strings.Join(es, "; "))
 		}
 		if len(x.Results) == 1 {
 			// return f(args) with a multi-result callee: desugared into  r'0, r'1 := f(args); return r'0, r'1
@@ -474,6 +602,17 @@ func (g *astGen) stmt(s ast.Stmt) string {
 						vars = append(vars, fmt.Sprintf("(EVar %s)", coqStr(fmt.Sprintf("r'%d", i))))
 					}
 					return fmt.Sprintf("SAssign [%s] [%s];\n      SReturn [%s]", strings.Join(names, "; "), es[0], strings.Join(vars, "; "))
+				}
+				// return x.m(args) where m has a pointer receiver: the call may change x, which only a
+				// statement-level call can write back:  r'0 := x.m(args); return r'0
+				if sel, ok := c.Fun.(*ast.SelectorExpr); ok {
+					if fn, ok := g.info.Uses[sel.Sel].(*types.Func); ok {
+						if sig, ok := fn.Type().(*types.Signature); ok && sig.Recv() != nil && sig.Results().Len() == 1 {
+							if _, isPtr := sig.Recv().Type().(*types.Pointer); isPtr && fn.Pkg() == g.pkg {
+								return fmt.Sprintf("SAssign [%s] [%s];\n      SReturn [(EVar %s)]", coqStr("r'0"), es[0], coqStr("r'0"))
+							}
+						}
+					}
 				}
 			}
 		}
@@ -662,6 +801,16 @@ func (g *astGen) stmt(s ast.Stmt) string {
 			}
 			if len(vs.Names) == 1 && len(vs.Values) == 1 {
 				return fmt.Sprintf("SAssign [%s] [%s]", coqStr(vs.Names[0].Name), g.expr(vs.Values[0]))
+			}
+			if len(vs.Names) > 1 && len(vs.Values) == 0 {
+				// var a, b T  ==>  var a T; var b T
+				if _, isArr := g.info.TypeOf(vs.Type).Underlying().(*types.Array); !isArr {
+					var ds []string
+					for _, n := range vs.Names {
+						ds = append(ds, fmt.Sprintf("SVar %s %s", coqStr(n.Name), coqStr(g.typeName(g.info.TypeOf(vs.Type)))))
+					}
+					return strings.Join(ds, ";\n      ")
+				}
 			}
 		}
 		return "SUnsup \"declaration\""
